@@ -641,7 +641,7 @@ func checkEscapeDecisionTables(c *core.Ctx, prog *core.Prog) {
 				parts = append(parts, fmt.Sprintf("… (%d pairs)", len(pairs)))
 				break
 			}
-			parts = append(parts, fmt.Sprintf("%%%c%c", p[0], p[1]))
+			parts = append(parts, escPair(p[0], p[1]))
 		}
 		return strings.Join(parts, " ")
 	}
@@ -719,7 +719,7 @@ func checkEscapeDecisionTables(c *core.Ctx, prog *core.Prog) {
 							bad = append(bad, [2]int{a, b})
 						}
 						if firstWhy == "" {
-							firstWhy = fmt.Sprintf("%%%c%c: the scan decides %q, the definition says %q", a, b, got, exp)
+							firstWhy = fmt.Sprintf("%s: the scan decides %q, the definition says %q", escPair(a, b), got, exp)
 						}
 					}
 				}
@@ -805,7 +805,7 @@ func checkEscapeDecisionTables(c *core.Ctx, prog *core.Prog) {
 					bad = append(bad, [2]int{a, b})
 				}
 				if firstWhy == "" {
-					firstWhy = fmt.Sprintf("%%%c%c: the loop %s, the definition says %s", a, b, got, exp)
+					firstWhy = fmt.Sprintf("%s: the loop %s, the definition says %s", escPair(a, b), got, exp)
 				}
 			}
 		}
@@ -828,4 +828,16 @@ func checkEscapeDecisionTables(c *core.Ctx, prog *core.Prog) {
 	default:
 		r.Pass("rewriting loop: 65536 byte pairs tabulated; invalid / written bytes agree with the normal form; advances by 3")
 	}
+}
+
+
+// escPair prints the escape %ab with non-printable bytes as \xNN.
+func escPair(a, b int) string {
+	one := func(c int) string {
+		if c >= 0x21 && c < 0x7f {
+			return string(rune(c))
+		}
+		return fmt.Sprintf("\\x%02X", c)
+	}
+	return "%" + one(a) + one(b)
 }
